@@ -43,6 +43,8 @@ class CFGNormalization(IRPass):
         split_bb = IRBasicBlock(split_label, fn)
 
         pred_terminal = pred_bb.instructions[-1]
+        if pred_terminal.opcode == "djmp":
+            self._retarget_jump_table(bb, pred_bb, split_label)
         pred_terminal.replace_label_operands({bb.label: split_label})
 
         # variables referenced in the phi node from pred_bb might be defined
@@ -70,6 +72,26 @@ class CFGNormalization(IRPass):
         self._update_phi_nodes(bb, pred_bb, split_bb, var_replacements)
 
         return split_bb
+
+    def _retarget_jump_table(
+        self, bb: IRBasicBlock, pred_bb: IRBasicBlock, split_label: IRLabel
+    ) -> None:
+        # a djmp reaches `bb` through the jump table in the data segment,
+        # not through its label operand: the table entries must lead to the
+        # split block as well, otherwise control skips it at run time
+        for other in self.function.get_basic_blocks():
+            if other is pred_bb:
+                continue
+            term = other.instructions[-1]
+            if term.opcode == "djmp" and bb.label in term.get_label_operands():
+                raise CompilerPanic(
+                    f"cannot normalize: {bb.label} is the target of several djmp instructions"
+                )
+
+        for data_section in self.function.ctx.data_segment:
+            for item in data_section.data_items:
+                if isinstance(item.data, IRLabel) and item.data == bb.label:
+                    item.data = split_label
 
     def _needs_forwarding_store(self, var: IRVariable, pred_bb: IRBasicBlock) -> bool:
         for inst in pred_bb.instructions:
